@@ -100,7 +100,9 @@ def run(ctx):
                 # the defining statement on random data: q.u = integral of the interpolant of u
                 u = np.array([rng.uniform(-1, 1) for _ in xg])
                 s = spl.Spline1D(basis)
-                it.compute_interpolant(u.copy(), s)
+                held = u.copy()               # the data array the caller holds (and applies the weights to)
+                it.compute_interpolant(held, s)
+                u = held
                 integ = sum(Fr(float(c)) * sp.ints[j] for j, c in enumerate(s.coeffs)) * Fr(h) if not periodic else \
                     sum(Fr(float(s.coeffs[j % nb])) * sp.ints[j] for j in range(sp.nb)) * Fr(h)
                 if not abs(float(q @ u) - float(integ)) <= tol * 10:
